@@ -223,3 +223,46 @@ func VH_C02_flowBudget() {
 		vAssert(err != nil, "exhausted-budget-without-fallback-fails")
 	}
 }
+
+// a batch item may itself be an error Result (the output of an earlier stage fed back in): it is an
+// item like any other — it gets its attempts, and the fallback only after all of them failed
+func VH_C02_errorItem() {
+	maxN := vParam("N", 3)
+	N := vNondet[int]("N")
+	vAssume(1 <= N && N <= maxN)
+	vUnwind(maxN + 4)
+	upstream := vNewErr()
+	calls, okAt, fb := 0, 0, 0
+	var lastErr, fbGot error
+	b := NewBatchNode().WithMaxRetries(N).WithBatchConcurrency(vChoice("concurrency", 2)).
+		WithPrepFunc(func(ctx context.Context, s *SharedStore) ([]Result, error) {
+			return []Result{NewErrorResult(upstream)}, nil
+		}).
+		WithExecFunc(func(ctx context.Context, item Result) (Result, error) {
+			var err error
+			vMon(func() {
+				vAssert(item.IsError() && item.Error() == upstream, "exec-receives-the-item")
+				calls++
+				if okAt == 0 && vNondet[bool]("fail") {
+					lastErr = vNewErr()
+					err = lastErr
+				} else if okAt == 0 {
+					okAt = calls
+				}
+			})
+			return NewResult(7), err
+		})
+	WithExecFallbackFunc(func(p any, err error) (any, error) {
+		vMon(func() { fb++; fbGot = err })
+		return nil, err
+	}).apply(b.CustomNode)
+	Run(vNewCtx(), b, NewSharedStore())
+	if okAt > 0 {
+		vCover("success")
+		vAssert(calls == okAt && fb == 0, "stop-at-first-success")
+	} else {
+		vCover("all-failed")
+		vAssert(calls == N, "exactly-N-attempts")
+		vAssert(fb == 1 && fbGot == lastErr, "fallback-exactly-once")
+	}
+}
